@@ -125,11 +125,16 @@ TbName(n, dom) == IF Name("traceback", n) \in dom THEN TbName(n + 1, dom) ELSE n
 \* onException adds a traceback (unless exactly skip / uxs / xfail) and calls each handler once.
 \* (the xfail's assertion traceback is attached by expectFailure itself, before the raise)
 TbAddedBy(k) == k \notin {"skip", "skipobj", "uxs", "xfaild", "uxsd"}
+\* The program's "user customisation" flag `onexc` stands for both documented per-instance hooks: an
+\* addOnException handler is registered AND the user's handlers are inserted into this instance's
+\* exception_handlers.  Without it the instance is pristine: its handler list is the default one, so the custom
+\* exception classes are plain Exceptions (errors) - whatever other instances of the same class inserted.
+Eff(k) == IF ~onexc /\ k \in {"custom", "custom3", "custom4"} THEN "custom2" ELSE k
 RECURSIVE Caught(_, _, _, _, _, _)
 \* returns <<details, tbNext, added, raised>> after processing the kinds in ks (a sequence)
 Caught(ks, u, d, tn, ad, rs) ==
     IF ks = <<>> THEN <<d, tn, ad, rs>>
-    ELSE LET k  == Head(ks)
+    ELSE LET k  == Eff(Head(ks))
              i  == Cardinality({j \in DOMAIN rs : rs[j].unit = u}) + 1     \* index among the exceptions of unit u
              n  == TbName(tn, DOMAIN d)
              nm == Name("traceback", n)
